@@ -125,6 +125,10 @@ func flight3Parse(
 			return 0, &alert.Alert{Level: alert.Fatal, Description: alert.InsufficientSecurity}, dtlserrors.ErrInvalidCipherSuite
 		}
 
+		if cfg.MaxVersion.Equal(protocol.Version1_3) && hasDowngradeSentinel(serverHelloMsg.Random) {
+			// Both sides support DTLS 1.3, yet the server saw a ClientHello without it.
+			return 0, &alert.Alert{Level: alert.Fatal, Description: alert.IllegalParameter}, dtlserrors.ErrProtocolDowngradeDetected
+		}
 		state.CipherSuite = selectedCipherSuite
 		state.RemoteRandom = serverHelloMsg.Random
 		cfg.Log.Tracef("[handshake] use cipher suite: %s", selectedCipherSuite.String())
